@@ -25,6 +25,9 @@ ASSUMPTIONS = [
     'forward-step bound: |x1-x0|_v <= 4*max(1,|A|_inf)*(tol*max(1,|x0|_inf) + 2e-4): one forward step maps the last '
     'accepted backward change through A; 2e-4 is the code\'s own near-zero rule; factor 4 is slack',
     'systems are autonomous (no explicit dependence on k other than the excluded time axis t)',
+    'family stock-flow-per-variable: one stock x = a*LAG_x + b plus derived variables affine in (x, LAG_x), reduction on: '
+    'every variable obeys change(k+1) = a*change(k) exactly, so each variable is held to max(1,|a|)*max(tol, tol*|v|) '
+    '(2e-4 when |v| < 1e-4) on its own - the per-variable reading of the property, free of the system-wide scale',
 ]
 
 
@@ -279,9 +282,105 @@ def run_tight(spec):
     return {'nontrivial': near, 'labels': labels + (['value-near-threshold'] if near else [])}
 
 
+# ---------------------------------------------------------------------------------------------------
+@st.composite
+def stockflow_case(draw):
+    """
+    One slowly adjusting stock x = a*LAG_x + b and derived variables that nothing else depends on (flow = x - LAG_x, gap
+    = target - x, scaled combinations), solved with equation reduction so that the derived
+    variables are exact functions of x.  Every variable v = c1*x + c2*LAG_x + c0 then satisfies
+    change(k+1) = a * change(k) exactly, so the acceptance rule gives a PER-VARIABLE bound for the forward step.  The start
+    value is placed so that the stock's last relative change is u*tol: the stock passes the relative test while the flow,
+    whose relative change is |1-a| whatever the horizon, still moves.
+    """
+    a100 = draw(st.sampled_from([97, 99, 95, 90, -97, 98, 50, 100, -100]))
+    a = a100 / 100.0
+    tol = draw(st.sampled_from(['1e-4', '1e-3', '1e-2', '1e-5']))
+    T = float(tol)
+    ss_T = draw(st.sampled_from([200, 50, 100, 20, 7]))
+    star = draw(st.sampled_from([1000.0, -1000.0, 10.0, 1e5, -25.0, 0.5]))
+    u = draw(st.sampled_from([0.6, 0.9, 1.5, 0.3, 0.01, 1e-4, 30.0]))
+    if abs(a100) == 100:
+        b = star * T * u if a100 == 100 else star
+        x0 = 0.0
+    else:
+        b = star * (1 - a)
+        # last relative change of the stock ~ |1-a| * |a|**ss_T * r, r = |x0 - star| / |star|
+        r = u * T / (abs(1 - a) * abs(a) ** ss_T)
+        r = min(r, 1e6)
+        x0 = star * (1 - r * draw(st.sampled_from([1, -1])))
+    eqs = [['x', '%r*LAG_x + (%r)' % (a, b), 'sim']]
+    # (a derived variable that feeds another derived variable is NOT classed as decorative by the reduction: it is then
+    # iterated Jacobi-style at the search tolerance and may legitimately be one sweep stale - outside this exact regime)
+    derived = draw(st.lists(st.sampled_from(['flow', 'gap', 'mix', 'half']), min_size=1, max_size=4, unique=True))
+    c = draw(st.sampled_from([2.0, -0.5, 10.0]))
+    for d in derived:
+        rhs = {'flow': 'x - LAG_x', 'gap': '(%r) - x' % star, 'mix': '%r*x - %r*LAG_x + 3.0' % (c, c * a),
+               'half': '0.5*(x - LAG_x) - 0.25*x'}[d]
+        eqs.append([d, rhs, 'leaf'])
+    order = draw(st.permutations(list(range(len(eqs)))))
+    eqs = [eqs[i] for i in order]
+    return {
+        'eqs': eqs, 'lags': [['LAG_x', 'x', '(k-1)']], 'exo': [], 'ics': [['x', repr(x0)]], 'maxtime': 2, 'tol': '1e-9',
+        'layout': {'eqsp': ' = ', 'perm': None},
+        'cert': {'family': 'stockflow', 'norm': max(1.0, abs(a)), 'lam': {}, 'q': 0.0, 'feedforward': True},
+        'ss_T': ss_T, 'ss_tol': tol, 'reduction': True, 'a': a, 'u': u, 'derived': derived,
+    }
+
+
+def run_stockflow(spec):
+    from sfc_models.equation_solver import EquationSolver
+    es = EquationSolver(run_equation_reduction=True)
+    es.ParseString(blocks.render(spec))
+    es.ParameterInitialSteadyStateMaxTime = spec['ss_T']
+    T = float(spec['ss_tol'])
+    es.ParameterInitialSteadyStateErrorToler = T
+    labels = ['a:%r' % spec['a'], 'tol:' + spec['ss_tol'], 'u:%r' % spec['u']]
+    es.ExtractVariableList()
+    es.SetInitialConditions()
+    decorative = set(v for v, _ in es.Parser.Decoration)
+    if not set(spec['derived']) <= decorative:
+        raise Reject('derived variables not classed as decorative: %r' % sorted(set(spec['derived']) - decorative))
+    before = config_snapshot(es)
+    outcome, err = 'accepted', None
+    try:
+        es.CalculateInitialSteadyState()
+    except Exception as ex:
+        outcome, err = type(ex).__name__, ex
+    if config_snapshot(es) != before:
+        raise Violation('C15/config-changed', 'the search changed the solver it initialises (%s)' % outcome)
+    labels.append('outcome:' + outcome)
+    if outcome != 'accepted':
+        if not isinstance(err, ValueError):
+            raise Violation('C15/wrong-exception', 'search ended in %s: %s' % (outcome, err))
+        return {'nontrivial': True, 'labels': labels}
+    excluded = set(['k'] + list(es.ParameterInitialSteadyStateExcludedVariables))
+    fwd = copy.deepcopy(es)
+    fwd.SolveStep(1)
+    scale = max([1.0] + [abs(s[0]) for v, s in fwd.TimeSeries.items() if v not in excluded])
+    A = max(1.0, abs(spec['a']))
+    for v, s in fwd.TimeSeries.items():
+        if v in excluded:
+            continue
+        # what the acceptance rule can have let through for THIS variable: absolute tol, relative tol, or two values
+        # below 1e-4 in magnitude
+        allowed = max(T, T * abs(s[0]))
+        if abs(s[0]) < 1e-4:
+            allowed = max(allowed, 2e-4)
+        bound = A * allowed * (1.0 + 1e-6) + 1e-11 * scale
+        d = abs(s[1] - s[0])
+        if not d <= bound:
+            raise Violation('C15/accepted-not-steady',
+                            'stock-flow system (a=%r) accepted as steady (search %d periods, tol %s) but %s moves from %r to %r '
+                            'in the next period; the acceptance rule allows at most %.6g for this variable' %
+                            (spec['a'], spec['ss_T'], spec['ss_tol'], v, s[0], s[1], bound))
+    return {'nontrivial': True, 'labels': labels}
+
+
 FAMILIES = [
     Family('lag-systems', case, run, quick=3000, thorough=100000),
     Family('pure-lag-tight', tight_case, run_tight, quick=2500, thorough=60000),
+    Family('stock-flow-per-variable', stockflow_case, run_stockflow, quick=1500, thorough=40000),
 ]
 
 MANIFEST_INFO = {
